@@ -36,10 +36,11 @@ Fixpoint needs_lock (fuel : nat) (t : list entry) (e : entry) : bool :=
 (* entry points: callable from other packages, or the body of a goroutine *)
 Definition is_entry (e : entry) : bool := e_exported e || e_go e.
 
-(* exported without lock although it reads pool.pending / pool.queue through
-   stats(); no caller exists in the repository, so it cannot race today
-   (reported in the evidence as a latent race) *)
-Definition known_unlocked_entries : list string := ["TransactionsNumber"].
+(* entry points tolerated outside the discipline: none.  (TransactionsNumber
+   used to read pool.pending / pool.queue through stats() without the lock -
+   fixes/C20_transactions_number_unlocked.md, repaired by commit 94b8c45; with
+   the empty list a regression fails this file.) *)
+Definition known_unlocked_entries : list string := [].
 
 Definition discipline_ok (t : list entry) : bool :=
   forallb (fun e => negb (is_entry e) || negb (needs_lock (List.length t) t e)
@@ -48,8 +49,8 @@ Definition discipline_ok (t : list entry) : bool :=
 Lemma lock_discipline_holds : discipline_ok c20_methods = true.
 Proof. vm_compute. reflexivity. Qed.
 
-(* spelled out: every entry point other than the listed one runs all its
-   accesses to shared pool fields inside a pool.mu critical section *)
+(* spelled out: every entry point runs all its accesses to shared pool fields
+   inside a pool.mu critical section *)
 Lemma lock_discipline_forall :
   forall e, In e c20_methods -> is_entry e = true ->
             needs_lock (List.length c20_methods) c20_methods e = false \/ In (e_name e) known_unlocked_entries.
@@ -59,14 +60,6 @@ Proof.
   match type of H with context [needs_lock ?a ?b ?c] => destruct (needs_lock a b c) eqn:N end; auto.
   cbn [negb orb] in H. right. apply existsb_exists in H as (x & Hx & E). apply String.eqb_eq in E. subst. auto.
 Qed.
-
-(* is the listed exception still one in this tree?  (false once
-   fixes/C20_transactions_number_unlocked.diff is applied; reported in the evidence) *)
-Definition latent_unlocked_entry_present : bool :=
-  match find_entry c20_methods "TransactionsNumber" with
-  | Some e => needs_lock (List.length c20_methods) c20_methods e
-  | None => false
-  end.
 
 Lemma evict_branch_as_modelled : c20_evict_branch_as_modelled = true.
 Proof. reflexivity. Qed.
